@@ -14,6 +14,8 @@ let () =
            | "R" :: rest -> (try Cmds.run_r ~cap:false rest with Syntax.Bad m -> "BADCASE " ^ m)
            | "M" :: rest -> (try Cmds.run_r ~cap:true rest with Syntax.Bad m -> "BADCASE " ^ m)
            | "A" :: rest -> (try Cmds.run_a rest with Syntax.Bad m -> "BADCASE " ^ m)
+           | "X" :: rest -> (try Cmds.run_x rest with Syntax.Bad m -> "BADCASE " ^ m)
+           | "Y" :: rest -> (try Cmds.run_y rest with Syntax.Bad m -> "BADCASE " ^ m)
            | c :: _ -> "BADCMD " ^ c
            | [] -> "BADCMD"
          in
